@@ -42,6 +42,8 @@ props = [json.loads(l) for l in open(os.path.join(VERIF, "properties.jsonl"))]
 os.makedirs("/tmp/seedprompts", exist_ok=True)
 for p in props:
     pid = p["id"]
+    if os.environ.get("ONLY") and pid[1:] not in os.environ["ONLY"].split():
+        continue
     wt = f"/tmp/w{rnd}_{pid}"
     if not os.path.isdir(wt):
         subprocess.run(["git", "-C", "/repo", "worktree", "add", "-q", "--detach", wt, "HEAD"], check=True)
